@@ -4,7 +4,7 @@ import random
 from harness import common as C
 
 RULE_FILES = ["Rules/RealPrelude.v", "Rules/ScalarRules.v", "Rules/Complex.v", "Containers/VSpace.v",
-              "Containers/VSpaceProof.v", "Array/Broadcast.v", "Array/Run01.v", "Array/MatMul.v", "Array/Index.v", "Array/Select.v", "Array/RunSel.v"]
+              "Containers/VSpaceProof.v", "Array/Broadcast.v", "Array/Run01.v", "Array/MatMul.v", "Array/Index.v", "Array/Select.v", "Array/RunSel.v", "Rules/Stats.v", "Rules/StatsProof.v", "Array/RunStats.v"]
 IMPORTS = ("From Coq Require Import List ZArith.\nImport ListNotations.\n"
            "From AG Require Import VSpace VSpaceProof Broadcast Run01 MatMul.\nLocal Open Scope Z_scope.\n")
 
@@ -122,6 +122,33 @@ def run_select(res, tag, seed):
     return bad, tie, None
 
 
+def term_stat(c):
+    ql = lambda l: C.clist(["(%d # %d)" % (a, b) for a, b in l])  # noqa: E731
+    jv = "None" if c["jvp"] is None else "(Some %s)" % ql(c["jvp"])
+    return ("{| t_fn := %s; t_d := %s; t_x := %s; t_g := %s; t_v := %s; t_val := %s; t_vjp := %s; t_jvp := %s; t_ok := %s |}"
+            % (C.cnat(c["fn"]), C.cnat(c["d"]), ql(c["x"]), ql(c["g"]), ql(c["v"]), ql(c["val"]), ql(c["vjp"]), jv, C.cbool(c["ok"])))
+
+
+def run_stats(res, tag, seed, n):
+    """np.var / np.std / np.prod / np.cumsum: the model's rules (Rules/Stats.v, instantiated with Q) against the
+    implementation, fibre by fibre, on data where float64 arithmetic is exact"""
+    out, err = C.run_impl("impl_stats.py", {"seed": seed, "n": n})
+    if out is None:
+        return [], [], err
+    cases = out["cases"]
+    for k, v in out["dist"].items():
+        res.count("stats:" + k, v)
+    imports = ("From Coq Require Import List ZArith QArith.\nImport ListNotations.\n"
+               "From AG Require Import Stats RunStats.\nLocal Open Scope Q_scope.\n")
+    codes = C.coq_eval(tag + "_stat", imports, "", [term_stat(c) for c in cases], "checkstat")
+    res.add_cases(len(cases), [("stat", c["tag"], str(c["x"])) for c in cases], [{"configuration": c["tag"]} for c in cases[:1]])
+    names = ["var", "std", "prod", "cumsum"]
+    bad = [dict(c, site={"primitive": names[c["fn"]]}, primitive=names[c["fn"]], configuration=c["tag"],
+                what="reduction rule: shapes or primal value wrong") for c, k in zip(cases, codes) if k == 2]
+    tie = [c for c, k in zip(cases, codes) if k == 1]
+    return bad, tie, None
+
+
 def run_bcast(res, tag, seed, n):
     out, err = C.run_impl("impl_bcast.py", {"cases": bcast_cases(seed, n), "sums": sum_cases(seed, 2 * n), "mms": mm_cases(seed, n)})
     if out is None:
@@ -150,7 +177,10 @@ def run_bcast(res, tag, seed, n):
     qbad, qtie, qerr = run_select(res, tag, seed)
     if qerr:
         return bad, tie, qerr
-    return bad + qbad, tie + qtie, None
+    tbad, ttie, terr = run_stats(res, tag, seed, 3 * n)
+    if terr:
+        return bad, tie, terr
+    return bad + qbad + tbad, tie + qtie + ttie, None
 
 
 def run_oracle(res, props, tier, seed, only=None):
@@ -174,6 +204,9 @@ def run(res, tier, seed, broken, props, with_bcast):
     elif "C02" in props:
         b, t, err = run_select(res, "sel_" + props[0].lower(), seed)
         bad, tie = bad + b, tie + t
+        if not err:
+            b, t, err = run_stats(res, "st_" + props[0].lower(), seed, 150 if tier == "thorough" else 60)
+            bad, tie = bad + b, tie + t
         if err:
             broken = broken + [{"obligation": "selection-primitive correspondence failed to run", "log": err[-3000:]}]
     ob, err = run_oracle(res, props, tier, seed)
